@@ -302,9 +302,13 @@ func (x *Exec) external(fn *ssa.Function, args []Val) (Val, bool) {
 	if strings.HasPrefix(name, "reflect.") || strings.HasPrefix(name, "(reflect.") || strings.HasPrefix(name, "(*reflect.") {
 		return x.reflectExt(name, args), true
 	}
-	if x.job != nil && x.job.Stub != nil {
-		if v, ok := x.job.Stub(x, name, args); ok {
-			return v, true
+	if x.job != nil && x.job.Redirect != nil {
+		if h, ok := x.job.Redirect[name]; ok {
+			hf := x.P.entryFunc(h)
+			if hf == nil {
+				panic(unsupported{"redirect target missing: " + h})
+			}
+			return x.call(hf, args, nil), true
 		}
 	}
 	if name == "(*github.com/jmespath/go-jmespath.Lexer).tokenize" {
